@@ -8,14 +8,14 @@ The long-format reader is regular-expression based; Read.lean models each regula
 (compared with `re` itself on every run); Lemmas/Matchers.lean restates the matchers on `List Char`.
 
 * `parseLong_emit` — the whole-file theorem (any number of tiers, also none), hypotheses: `LongNum` numerals, `NoKwLong`
-  (A10: `item [`, `item[`, and the entry separator of the tier's own class), strip-invariant labels, `NameRowFree` names (single
-  line, or without the words `xmin` / `xmax`: multi-line names are read since fix A32), no `\r\n`.  NOT needed (proved harmless): labels/names that look like rows (`text = "…"`, `xmin = 5`, `name = "x"`,
+  (A10: `item [`, `item[`, and the entry separator of the tier's own class), strip-invariant labels, no `\r\n` — and NO
+  hypothesis on tier names beyond the keywords (multi-line names: fix A32; span rows searched behind the name: fix A33).  NOT needed (proved harmless): labels/names that look like rows (`text = "…"`, `xmin = 5`, `name = "x"`,
   `class = "IntervalTier"`), quotes followed by blanks and a line break, the other class's separator.
 * (a) `numAfter_written`, `textAfter_dotall`, `textAfter_dotall_tail`, `scanL_barrier`, `scanL_free` — the matchers on written rows;
   (b) `readEntry_iv`, `readEntry_pt`, `readTier_written`; (c) `split_file`; `emitLong_toList`.
 * `parseText_long_emit`, `parseText_short_emit` — through the format sniffing of `parseTextgridStr`, with `_removeBlanks`.
 * `sep_in_row_iff`, `noKwLong_of_no_bracket` — the keyword hypothesis exactly / a simple sufficient condition;
-  `parseLong_keyword_counterexample`, `parseLong_name_row_counterexample`, `parseText_short_item_counterexample`,
+  `parseLong_keyword_counterexample`, `parseText_short_item_counterexample`, the regressions `parseLong_name_newline_regression`, `parseLong_name_row_regression`,
   `#guard`s — what must be excluded.  The hypotheses are classified (property's own quantifier / enforced by the code /
   known defect with counter-example) in the docstrings of `LongNum`, `parseLong_emit`, `parseText_*_emit`.
 -/
@@ -2275,18 +2275,17 @@ theorem hdr4 (num : α → String) (lo hi : α) (n : Nat) :
 /-- **C01, long format, whole file**: praatio's long-format reader (`_parseNormalTextgrid`) applied to the text praatio's
 long-format emitter writes for ANY textgrid (any number of tiers, also none; any number of entries) returns exactly that
 textgrid — under the hypotheses: numerals match the reader's captured group `-?[\d.]+(?:[eE][-+]?\d+)?`; no name or label
-contains `item [`, `item[` or the entry separator of its own tier class (A10); labels are strip-invariant; a name is a single
-line or holds neither the word `xmin` nor `xmax`; no `\r\n` in names and labels.
+contains `item [`, `item[` or the entry separator of its own tier class (A10); labels are strip-invariant; no `\r\n` in names and
+labels.  Tier NAMES are otherwise arbitrary: blanks at either end, line breaks, lines that read like rows of the format.
 
 The hypotheses, classified: `hnum` — a property of the numeral renderer, true of CPython's `repr` / `"%d"` for every finite
 float, NEGATIVE ones and `-0.0` included (the sign used to be lost or to raise: defect A30, fixed — see `LongNum`);
 `hkw` — known reader defect A10, needed (`parseLong_keyword_counterexample`); `hlab` — enforced by the code: the
 `IntervalTier` / `PointTier` constructors strip every label, so no in-memory textgrid violates it (the reader strips labels
 too: an unstripped label would come back stripped, as in `parseShort_emit_strip`; tier NAMES need no such hypothesis here —
-this reader does not strip them, see the `#guard` on `" a "` below); `hname` (`NameRowFree`) — every single-line name and every
-multi-line name without the words `xmin` / `xmax` (multi-line names are read since fix A32: `parseLong_name_newline_regression`);
-what is still excluded is a defect of the A10 family, needed: `parseLong_name_row_counterexample` (a line of the name that reads
-`xmin = 1` is taken for the tier's span row);
+this reader does not strip them, see the `#guard` on `" a "` below); there is no hypothesis on names beyond `hkw`: "names are single-line"
+was needed until fix A32 (no DOTALL in the name pattern), its weakening `NameRowFree` until fix A33 (the tier's span rows were
+searched from the top of the header, through the name) — `parseLong_name_newline_regression`, `parseLong_name_row_regression`;
 `hcr` — C01 quantifies over texts without carriage returns (`NoCRLF` is weaker: a lone `\r` is allowed and survives at
 this level — `io.open`'s universal newlines turn it into `\n` when the file is read from disk). -/
 theorem parseLong_emit (num : α → String) (hnum : ∀ x, LongNum (num x).toList) (g : Tg α) (lo hi : α)
